@@ -88,10 +88,27 @@ func VerifC14Step() {
 	case 5:
 		s, e := vRangeArgs()
 		a.Flip(s, e)
+	case 6:
+		a.CheckedRemove(vArg32())
+	case 7:
+		a.CheckedAdd(vArg32())
+	case 8:
+		// in-place intersection with a range bitmap (one run per chunk)
+		s, e := vRangeArgs()
+		r := NewBitmap()
+		r.AddRange(s, e)
+		a.And(r)
+	case 9:
+		s, e := vRangeArgs()
+		r := NewBitmap()
+		r.AddRange(s, e)
+		a.AndNot(r)
 	}
 	if vsym.Param("opt") == 1 {
 		a.RunOptimize()
 	}
+	// the accounting lemma (VerifC14Bound) covers every bitmap that satisfies the full invariant: the result must be one
+	vBitmapWf(a, true)
 	N := uint64(vBitmapCard(a))
 	ra := &a.highlowcontainer
 	if len(ra.keys) > 0 {
